@@ -9,8 +9,9 @@ source's timeline to within the coarser of the two formats' time resolutions".
                     StepMania's mines, lifts, fakes, key sounds and rolls have no counterpart in any other format and
                     no converter carries them: they are not part of the abstract chart (as in C08's `contentOk`).
 * `Res`             the time resolution of the *target*: `ms` — every time moves by less than 1 ms (osu, Quaver write
-                    whole milliseconds); `beat f` — by at most `f` beats at the tempo in force (StepMania 1/96,
-                    BMS 1/192), and not at all when the source chart lies on the snap grid (`gridExact`).
+                    whole milliseconds); `beat f g` — by at most `f` beats at the tempo in force (StepMania 1/96,
+                    BMS 1/192) plus `g` = 1/192 beat for every tempo change before it (the writers snap tempo changes
+                    to the same grid), and not at all when the source chart lies on the snap grid (`gridExact`).
 * `CloseTo`         declarative: some pairing (a permutation of the target's rows) puts every source row next to a
                     target row with the same column (+ shift) and times within the resolution; tempo points are
                     compared as a *timeline* (`normBpms`: time order, a point that repeats the tempo in force is
@@ -109,8 +110,13 @@ def dedupBpms (eps : Rat) : Option Rat → List ABpm → List ABpm
   | none, p :: t => p :: dedupBpms eps (some p.2) t
   | some cur, p :: t => if eqUpTo eps cur p.2 then dedupBpms eps (some cur) t else p :: dedupBpms eps (some p.2) t
 
-/-- the tempo timeline: points in time order, repetitions of the tempo in force dropped -/
-def normBpms (eps : Rat) (l : List ABpm) : List ABpm := dedupBpms eps none (sortBpms l)
+/-- of several points at one time only the last (in the stable time order) is in force -/
+def lastAtTime : List ABpm → List ABpm
+  | a :: b :: rest => if a.1 = b.1 then lastAtTime (b :: rest) else a :: lastAtTime (b :: rest)
+  | l => l
+
+/-- the tempo timeline: points in time order, one point per time, repetitions of the tempo in force dropped -/
+def normBpms (eps : Rat) (l : List ABpm) : List ABpm := dedupBpms eps none (lastAtTime (sortBpms l))
 
 /-- tempo in force at `t` for points in time order: the last point at or before `t`, else the first point -/
 def bpmAtAux (cur : Rat) : List ABpm → Rat → Rat
@@ -136,17 +142,26 @@ def pointAt (bpms : List ABpm) (t : Rat) : Option ABpm :=
 
 inductive Res where
   | ms
-  | beat (f : Rat)
+  /-- `f` beats at the tempo in force for the object itself, plus `g` beats (at the tempo before it) for every
+  tempo change at or before the object: a beat-based writer snaps the tempo changes too, and everything after a
+  moved tempo change moves with it -/
+  | beat (f g : Rat)
 deriving Repr, DecidableEq
+
+/-- accumulated allowance for the tempo changes at or before `t` (points in time order) -/
+def tempoSlack (g : Rat) : List ABpm → Rat → Rat
+  | a :: b :: rest, t =>
+    if b.1 ≤ t then (if 0 < a.2 then g * beatLen a.2 else 0) + tempoSlack g (b :: rest) t else 0
+  | _, _ => 0
 
 /-- how far a time `t` of the source chart may move -/
 def tolAt (res : Res) (src : AChart) (t : Rat) : Rat :=
   match res with
   | .ms => 1
-  | .beat f =>
-    match bpmAt src.bpms t with
-    | some b => if 0 < b then f * beatLen b else 0
-    | none => 0
+  | .beat f g =>
+    (match bpmAt src.bpms t with
+     | some b => if 0 < b then f * beatLen b else 0
+     | none => 0) + tempoSlack g (sortBpms src.bpms) t
 
 /-- `t` lies a multiple of 1/`n` beat after the tempo point in force -/
 def onBeatGrid (n : Nat) (src : AChart) (t : Rat) : Bool :=
@@ -180,7 +195,7 @@ def gridExact (src : AChart) : Bool :=
 def closeTime (eps : Rat) (res : Res) (exact : Bool) (src : AChart) (t u : Rat) : Bool :=
   match res with
   | .ms => decide (rabs (t - u) < 1 + slack eps t u)
-  | .beat _ =>
+  | .beat _ _ =>
     if exact then eqUpTo eps t u
     else decide (rabs (t - u) ≤ tolAt res src t + slack eps t u)
 
